@@ -22,13 +22,13 @@ CHECKS = {
     "C01": {
         "level": "exploration",
         "legs": [("cost", "C01")],
-        "quick": {"runs": 20000, "wall": 80},
+        "quick": {"runs": 15000, "wall": 70},
         "thorough": {"runs": 400000, "wall": 1500},
     },
     "C10": {
         "level": "exploration",
         "legs": [("ndf", "C10")],
-        "quick": {"runs": 20000, "wall": 80},
+        "quick": {"runs": 12000, "wall": 70},
         "thorough": {"runs": 400000, "wall": 1500},
     },
 }
